@@ -298,6 +298,10 @@ func (ctx *parseContext) readNodes() ([]Node, error) {
 
 		shouldStop := false
 
+		// Nesting level the node is declared at. The closing brace handled
+		// below belongs to the enclosing block, not to the node.
+		declNesting := ctx.nesting
+
 		// name arg0 arg1 {
 		//   c1 c2 }
 		//         ^
@@ -313,7 +317,7 @@ func (ctx *parseContext) readNodes() ([]Node, error) {
 		}
 
 		if node.Macro {
-			if ctx.nesting != 0 {
+			if declNesting != 0 {
 				return res, ctx.Err("macro declarations are only allowed at top-level")
 			}
 
@@ -325,10 +329,13 @@ func (ctx *parseContext) readNodes() ([]Node, error) {
 			// = sign is removed by parseAsMacro.
 			// It also cuts $( and ) from name.
 			ctx.macros[node.Name] = node.Args
+			if shouldStop {
+				break
+			}
 			continue
 		}
 		if node.Snippet {
-			if ctx.nesting != 0 {
+			if declNesting != 0 {
 				return res, ctx.Err("snippet declarations are only allowed at top-level")
 			}
 			if len(node.Args) != 0 {
@@ -336,6 +343,9 @@ func (ctx *parseContext) readNodes() ([]Node, error) {
 			}
 
 			ctx.snippets[node.Name] = node.Children
+			if shouldStop {
+				break
+			}
 			continue
 		}
 
